@@ -246,7 +246,7 @@ func (c Float64) Erf(a ConstScalar) Scalar {
 }
 func (c Float64) Erfc(a ConstScalar) Scalar {
   x := a.GetFloat64()
-  c.SetFloat64(math.Erf(x))
+  c.SetFloat64(math.Erfc(x))
   return c
 }
 func (c Float64) LogErfc(a ConstScalar) Scalar {
